@@ -89,14 +89,14 @@ type Finding struct {
 	Properties []string `json:"properties"`
 	// Tag names the class predicate of spec/Findings.tla (evaluated by TLC on
 	// each generated case) or a component-level class computed by the spec.
-	Tag      string   `json:"tag,omitempty"`
-	Tags     []string `json:"tags,omitempty"`
-	Variants []string `json:"variants,omitempty"` // empty = all
-	MinPar   int      `json:"min_par,omitempty"`
-	MaxPar   int      `json:"max_par,omitempty"`
-	Symptoms []string `json:"symptoms,omitempty"` // empty = any; else subset of value, hang, panic, error, cycles
-	What     string   `json:"what"`
-	Site     string   `json:"site"`
+	Tag      string          `json:"tag,omitempty"`
+	Tags     []string        `json:"tags,omitempty"`
+	Variants []string        `json:"variants,omitempty"` // empty = all
+	MinPar   int             `json:"min_par,omitempty"`
+	MaxPar   int             `json:"max_par,omitempty"`
+	Symptoms []string        `json:"symptoms,omitempty"` // empty = any; else subset of value, hang, panic, error, cycles
+	What     string          `json:"what"`
+	Site     string          `json:"site"`
 	Witness  json.RawMessage `json:"witness,omitempty"`
 }
 
